@@ -231,3 +231,230 @@ Example C05_singlechar_sep_holds :
                 [([114; 47; 97; 45]%N, []); ([114; 47; 98]%N, [])] in
   prop_C05 KList i (run KList i) = true.
 Proof. vm_compute. reflexivity. Qed.
+
+(* ==== round 2: the predicate itself, attribute exactness over all rows, acceptance with duplicate
+   names disallowed, the by-name entry points ============================================= *)
+
+(* ---- C05_model_satisfies_prop: prop_C05 (Spec/PC05.v), the predicate the check evaluates on every
+   implementation output, holds of the model's own output.  Proved for list_to_tree, dict_to_tree,
+   add_path_to_tree (row by row) and add_dict_to_tree_by_path, either setting of
+   duplicate_name_allowed, accepted and refused inputs alike (prop_C05 also decides acceptance).
+   Guard (hence _partial): the separator of the input paths is one character; for the in-place entry
+   points the attribute dicts of the existing tree have distinct keys (they are dicts) and, when
+   duplicate names are disallowed, the tree's own separator is one character.  prop_C05 is vacuous
+   outside its own `guards` (reserved attribute keys, ...).  The DataFrame/polars entry points are not
+   covered by this theorem (their clauses: C05_frame_to_tree_closure, C05_attrs_frame, correspondence). *)
+Theorem C05_model_satisfies_prop_list : forall i c,
+  i_sep i = [c] -> prop_C05 KList i (run KList i) = true.
+Proof. exact model_satisfies_list. Qed.
+Print Assumptions C05_model_satisfies_prop_list.
+
+Theorem C05_model_satisfies_prop_dict : forall i c,
+  i_sep i = [c] -> prop_C05 KDict i (run KDict i) = true.
+Proof. exact model_satisfies_dict. Qed.
+Print Assumptions C05_model_satisfies_prop_dict.
+
+Theorem C05_model_satisfies_prop_add_path : forall i c,
+  i_sep i = [c] -> attrs_wf (i_tree i) -> (i_dup i = true \/ exists c2, i_tsep i = [c2]) ->
+  prop_C05 KAddPath i (run KAddPath i) = true.
+Proof. exact model_satisfies_add_path. Qed.
+Print Assumptions C05_model_satisfies_prop_add_path.
+
+Theorem C05_model_satisfies_prop_add_dict : forall i c,
+  i_sep i = [c] -> attrs_wf (i_tree i) -> (i_dup i = true \/ exists c2, i_tsep i = [c2]) ->
+  prop_C05 KAddDict i (run KAddDict i) = true.
+Proof. exact model_satisfies_add_dict. Qed.
+Print Assumptions C05_model_satisfies_prop_add_dict.
+
+Theorem C05_model_satisfies_prop_partial : forall k i c,
+  In k [KList; KDict; KAddPath; KAddDict] ->
+  i_sep i = [c] -> attrs_wf (i_tree i) -> (i_dup i = true \/ exists c2, i_tsep i = [c2]) ->
+  prop_C05 k i (run k i) = true.
+Proof.
+  intros k i c Hk Hs Hw Ht. destruct Hk as [<-|[<-|[<-|[<-|[]]]]].
+  - now apply (model_satisfies_list i c).
+  - now apply (model_satisfies_dict i c).
+  - now apply (model_satisfies_add_path i c).
+  - now apply (model_satisfies_add_dict i c).
+Qed.
+Print Assumptions C05_model_satisfies_prop_partial.
+
+(* ---- C05_attrs_rows_exact: after a whole loop of add_path_to_tree calls (the body of every entry
+   point) the attribute map of every node is the fold, in row order, of the dicts of the rows whose
+   path is the node's path, starting from what the node carried before (nothing for a created node) *)
+Theorem C05_attrs_rows_exact : forall tsep sep rows t acc t' ps,
+  sib_ok t -> add_rows t tsep sep true rows acc = (t', Ret ps) ->
+  forall q s', subtree_at t' q = Some s' ->
+    aeq (tattrs s') (upd_for sep rows (names_along t' q) (attrs_at t q)).
+Proof. exact add_rows_attrs. Qed.
+Print Assumptions C05_attrs_rows_exact.
+
+Theorem C05_attrs_list : forall ps sep t',
+  list_to_tree ps sep true = Ret t' -> forall q s', subtree_at t' q = Some s' -> tattrs s' = [].
+Proof. exact list_to_tree_attrs. Qed.
+Print Assumptions C05_attrs_list.
+
+Theorem C05_attrs_dict : forall d sep t',
+  dict_to_tree d sep true = Ret t' ->
+  exists r ra,
+    forall q s', subtree_at t' q = Some s' ->
+      aeq (tattrs s')
+          (upd_for sep (map (fun r0 => (fst r0, filter_attributes (snd r0) [k_name] false)) d)
+                   (names_along t' q) (attrs_at (T None r (set_attrs [] ra) []) q)).
+Proof. exact dict_to_tree_attrs. Qed.
+Print Assumptions C05_attrs_dict.
+
+(* DataFrame / polars: the rows are (stripped path, frame_attrs of the row) ... *)
+Theorem C05_attrs_frame : forall rows pcol sep t',
+  frame_to_tree rows pcol sep true = Ret t' ->
+  exists r kw,
+    forall q s', subtree_at t' q = Some s' ->
+      aeq (tattrs s')
+          (upd_for sep (map (fun r0 => (fst r0, frame_attrs pcol (snd r0))) (strip_rows rows sep))
+                   (names_along t' q) (attrs_at (T None r (set_attrs [] kw) []) q)).
+Proof. exact frame_to_tree_attrs. Qed.
+Print Assumptions C05_attrs_frame.
+
+(* ... and frame_attrs keeps exactly the non-null cells other than "name" and the path column:
+   null values are dropped here and only here (dict_to_tree keeps them, C05_attrs_dict) *)
+Theorem C05_attrs_frame_nulls : forall pcol a k,
+  NoDup (map fst a) ->
+  attr_get (frame_attrs pcol a) k
+  = if str_eqb k k_name || str_eqb k pcol then None
+    else match attr_get a k with Some VNone => None | o => o end.
+Proof. exact frame_attrs_get. Qed.
+Print Assumptions C05_attrs_frame_nulls.
+
+(* ---- C05_no_dup_accept_iff: with duplicate_name_allowed = False the loop is accepted exactly when
+   the permissive loop is accepted and its result has pairwise distinct names, with the same result.
+   Guard: start tree with distinct names; the tree's separator is one character occurring in no
+   node name and no path component (needed for "accepted => same as permissive" only). *)
+Theorem C05_no_dup_accept_iff : forall c t sep rows t' ps,
+  NoDup (names t) -> clean c t ->
+  (forall r, In r rows -> forall x, In x (branch_of (fst r) sep) -> ~ In c x) ->
+  (add_rows t [c] sep false rows [] = (t', Ret ps)
+   <-> add_rows t [c] sep true rows [] = (t', Ret ps) /\ NoDup (names t')).
+Proof. exact no_dup_accept_iff. Qed.
+Print Assumptions C05_no_dup_accept_iff.
+
+(* unguarded half: a permissive result with distinct names is also what the strict call returns *)
+Theorem C05_no_dup_accepts_distinct : forall tsep sep rows t acc t' ps,
+  NoDup (names t') ->
+  add_rows t tsep sep true rows acc = (t', Ret ps) ->
+  add_rows t tsep sep false rows acc = (t', Ret ps).
+Proof. exact add_rows_true_false. Qed.
+Print Assumptions C05_no_dup_accepts_distinct.
+
+(* in the vocabulary of the specification: accepted iff every path is well formed and the last
+   components of the closure are pairwise distinct (acc_spec), both settings of the flag *)
+Theorem C05_accept_verdict : forall (dup : bool) c tsep b rows,
+  sib_ok b -> nonempty_names b ->
+  (dup = true \/ exists c2, tsep = [c2] /\ nodup_guard c c2 b rows) ->
+  match add_rows b tsep [c] dup rows [] with
+  | (t', Ret ps) =>
+      acc_spec dup c b rows = true /\ add_rows b tsep [c] true rows [] = (t', Ret ps)
+      /\ (dup = true \/ NoDup (names t'))
+  | (t1, Raise e) =>
+      acc_spec dup c b rows = false /\
+      (match rows with
+       | (s0, _) :: _ => match spec_parse s0 [c] with [] => true | r :: _ => negb (str_eqb r (tname b)) end = true
+       | [] => False
+       end -> t1 = b)
+  end.
+Proof. exact loop_verdict. Qed.
+Print Assumptions C05_accept_verdict.
+
+(* ---- the by-name entry points: shape, names and node objects untouched; a node gets the
+   attributes of the entry carrying its name (minus the key "name"), all others keep theirs *)
+Theorem C05_by_name_exact : forall d t,
+  paths (by_name_apply d t) = paths t
+  /\ map ttag (pre (by_name_apply d t)) = map ttag (pre t)
+  /\ (forall q, subtree_at t q = None -> subtree_at (by_name_apply d t) q = None)
+  /\ (forall q s, subtree_at t q = Some s ->
+        exists s', subtree_at (by_name_apply d t) q = Some s' /\
+                   ttag s' = ttag s /\ tname s' = tname s /\
+                   map tname (tkids s') = map tname (tkids s) /\
+                   tattrs s' = match dict_get d (tname s) with
+                               | Some na => set_attrs (tattrs s) (filter_attributes na [k_name] false)
+                               | None => tattrs s
+                               end).
+Proof. exact by_name_exact. Qed.
+Print Assumptions C05_by_name_exact.
+
+Theorem C05_by_name_dict : forall t d t',
+  add_dict_to_tree_by_name t d = Ret t' -> d <> [] /\ t' = by_name_apply d t.
+Proof. exact add_dict_by_name_exact. Qed.
+Print Assumptions C05_by_name_dict.
+
+(* frames: refused on two different attribute rows for one name; else the first row of each name,
+   nulls dropped *)
+Theorem C05_by_name_frame : forall t rows t',
+  add_frame_to_tree_by_name t rows = Ret t' ->
+  rows <> [] /\ has_duplicate_attribute rows = false /\ t' = by_name_apply (frame_name_attrs rows) t.
+Proof. exact add_frame_by_name_exact. Qed.
+Print Assumptions C05_by_name_frame.
+
+Theorem C05_by_name_frame_rows : forall rows nm,
+  dict_get (frame_name_attrs rows) nm
+  = option_map (filter (fun kv => negb (isnull (snd kv)))) (dict_get rows nm).
+Proof. exact frame_name_attrs_get. Qed.
+Print Assumptions C05_by_name_frame_rows.
+
+(* ---- non-vacuity --------------------------------------------------------------------------- *)
+Definition ex_rows : list row :=
+  [([97; 47; 98; 47; 100]%N, [(ex_c, VInt 1)]);      (* "a/b/d"  c=1 *)
+   ([47; 97; 47; 99]%N, [(ex_c, VNone)]);            (* "/a/c"   c=None *)
+   ([97; 47; 98]%N, [(ex_b, VInt 0)]);               (* "a/b"    b=0 *)
+   ([97; 47; 98; 47; 100; 47]%N, [(ex_c, VInt 2)])]. (* "a/b/d/" c=2 *)
+Definition ex_in (dup : bool) (t : tree) : input := MkIn ex_slash dup t ex_slash [] [80]%N ex_rows.
+
+(* the guards of prop_C05 hold and the model accepts: the umbrella theorem is not vacuous *)
+Example C05_model_satisfies_nonvacuous_new :
+  guards KDict (ex_in true dummy_tree) = true /\ o_res (run KDict (ex_in true dummy_tree)) = None
+  /\ guards KList (ex_in false dummy_tree) = true /\ o_res (run KList (ex_in false dummy_tree)) = None.
+Proof. vm_compute. auto. Qed.
+
+Example C05_model_satisfies_nonvacuous_add :
+  guards KAddPath (ex_in false ex_tree) = true /\ o_res (run KAddPath (ex_in false ex_tree)) = None
+  /\ attrs_wf ex_tree /\ i_tsep (ex_in false ex_tree) = [47%N].
+Proof.
+  split; [vm_compute; reflexivity|]. split; [vm_compute; reflexivity|]. split; [|reflexivity].
+  intros q s H. destruct q as [|j q]; [cbn in H; inversion H; apply NoDup_nil|].
+  destruct j as [|j]; [|cbn in H; destruct j; discriminate].
+  destruct q as [|k q]; [cbn in H; inversion H; apply NoDup_nil|cbn in H; destruct k; discriminate].
+Qed.
+
+(* a refused input (duplicate name b below c, duplicates disallowed): guards hold, the model raises *)
+Example C05_model_satisfies_nonvacuous_refused :
+  let i := MkIn ex_slash false dummy_tree ex_slash [] [80]%N
+                [([97; 47; 98]%N, []); ([97; 47; 99; 47; 98]%N, [])] in
+  guards KList i = true /\ o_res (run KList i) = Some DuplicatedNodeError
+  /\ prop_C05 KList i (run KList i) = true.
+Proof. vm_compute. auto. Qed.
+
+(* attributes over rows: the two rows for a/b/d leave c=2 (the later one), a/c keeps c=None in the
+   dict variant and loses it in the frame variant *)
+Example C05_attrs_rows_nonvacuous :
+  match dict_to_tree ex_rows ex_slash true,
+        frame_to_tree (frame_of_rows (firstn 3 ex_rows)) [80]%N ex_slash true with
+  | Ret td, Ret tf =>
+      option_map tattrs (subtree_at td [0; 0]) = Some [(ex_c, VInt 2)]
+      /\ option_map tattrs (subtree_at td [1]) = Some [(ex_c, VNone)]
+      /\ option_map tattrs (subtree_at tf [1]) = Some []
+      /\ option_map tattrs (subtree_at tf [0]) = Some [(ex_b, VInt 0)]
+  | _, _ => False
+  end
+  (* the two different attribute rows for a/b/d are refused by the frame variants *)
+  /\ frame_to_tree (frame_of_rows ex_rows) [80]%N ex_slash true = Raise ValueError.
+Proof. vm_compute. auto. Qed.
+
+Example C05_by_name_nonvacuous :
+  add_dict_to_tree_by_name ex_tree [(ex_b, [(ex_c, VInt 5); (k_name, VStr ex_a)])]
+  = Ret (T (Some 0) ex_a [] [T (Some 1) ex_b [(ex_c, VInt 5)] []]).
+Proof. vm_compute. reflexivity. Qed.
+
+Example C05_no_dup_accept_iff_nonvacuous :
+  exists t' ps, add_rows ex_tree [47%N] ex_slash false ex_rows [] = (t', Ret ps) /\ NoDup (names ex_tree).
+Proof.
+  eexists. eexists. split; [vm_compute; reflexivity|]. repeat constructor; cbn; intuition discriminate.
+Qed.
